@@ -20,7 +20,8 @@ CONSTANTS Tables,     \* sequence of option tables; table = sequence of option r
           TokText,    \* token alphabet: sequence of words (texts)
           TokSets,    \* per table: set of token indexes argv is built from
           MaxArgs,    \* bound on the number of words after the program name (model bound only)
-          Flags0,     \* initial content of the shared boolean word (set of bit numbers)
+          Flags0,     \* per table: initial content of the shared boolean word (set of bit numbers 0..63: the bits no
+                      \* option owns are pre-set to a pattern, all ones in one table, alternating in the other)
           Int0,       \* initial value of every integer target
           Argvs(_),   \* the argument vectors Init chooses from, per table (ArgvsBounded, or a sampled set of longer ones)
           Emit(_)     \* observation hook, called once per finished behaviour
@@ -253,11 +254,19 @@ DoMissingValue(j) ==
     /\ GMissingValue(j)
     /\ Go(i + 1, 0, flags, tv, AnyAt(mark, i), IF InPass(j) THEN 1 ELSE 0, 0, TRUE, FALSE)
 
-\* "-e w1 w2 ..." / "--exec w1 w2 ...": the argument list swallows the rest of the line, verbatim (S).  X: "-eWORD"
+\* "-e w1 w2 ..." / "--exec w1 w2 ...": the argument list swallows the rest of the line, verbatim (S)
 GArgListRest(j) == j # 0 /\ ValuelessPos /\ HasNext /\ Kind(j) = "args"
 DoArgListRest(j) ==
     /\ GArgListRest(j)
     /\ Go(NArgs + 1, 0, flags, Assign(j, TV(0, TRUE, <<>>, [k \in 1 .. (NArgs - i) |-> Txt(i + k)])),
+          [k \in 1 .. NArgs |-> IF k > i THEN "gone" ELSE Gone(i)[k]], 0, 0, FALSE, InPass(j) /\ IsReassign(j))
+
+\* "-eWORD w2 ...": -xVALUE spelling of an argument list (I): the attached text is the first word of the list, the
+\* rest of the line follows
+GArgListAttached(j) == InShort /\ j # 0 /\ ~LastLetter /\ Kind(j) = "args"
+DoArgListAttached(j) ==
+    /\ GArgListAttached(j)
+    /\ Go(NArgs + 1, 0, flags, Assign(j, TV(0, TRUE, <<>>, <<Attached>> \o [k \in 1 .. (NArgs - i) |-> Txt(i + k)])),
           [k \in 1 .. NArgs |-> IF k > i THEN "gone" ELSE Gone(i)[k]], 0, 0, FALSE, InPass(j) /\ IsReassign(j))
 
 \* "--exec=w1 w2 'w 3'": the value is split into words, quote-aware (S); parsing continues with the next word
@@ -290,7 +299,7 @@ DoAbstract(j) ==
 InUniverse(j) == \/ GNonOption \/ GLoneDash \/ GUnknownLong(j) \/ GUnknownShort(j) \/ GShortFlag(j)
                  \/ GShortAttachedValue(j) \/ GShortNextValue(j) \/ GLongFlag(j) \/ GLongBoolWord(j)
                  \/ GLongEqValue(j) \/ GLongNextValue(j) \/ GMissingValue(j) \/ GArgListRest(j) \/ GArgListEq(j)
-                 \/ GAbstract(j)
+                 \/ GAbstract(j) \/ GArgListAttached(j)
 
 \* the actions proper: the spelling under the cursor, read with the option the cursor is at
 OpUnknownLong == Scanning /\ DoUnknownLong(CurOpt)
@@ -306,10 +315,11 @@ OpMissingValue == Scanning /\ DoMissingValue(CurOpt)
 OpArgListRest == Scanning /\ DoArgListRest(CurOpt)
 OpArgListEq == Scanning /\ DoArgListEq(CurOpt)
 OpAbstract == Scanning /\ DoAbstract(CurOpt)
+OpArgListAttached == Scanning /\ DoArgListAttached(CurOpt)
 
 ScanStep == \/ OpNonOption \/ OpLoneDash \/ OpUnknownLong \/ OpUnknownShort \/ OpShortFlag
             \/ OpShortAttachedValue \/ OpShortNextValue \/ OpLongFlag \/ OpLongBoolWord \/ OpLongEqValue
-            \/ OpLongNextValue \/ OpMissingValue \/ OpArgListRest \/ OpArgListEq \/ OpAbstract
+            \/ OpLongNextValue \/ OpMissingValue \/ OpArgListRest \/ OpArgListEq \/ OpAbstract \/ OpArgListAttached
 
 ---------------------------------------------------------------------------------------------
 (* results and pass sequencing *)
@@ -363,11 +373,11 @@ OpExcluded ==
     /\ Finish(<<>>, FALSE)
 
 \* the guards partition nothing twice: at most one spelling applies at any cursor position (the reading is a function)
-GuardCount(j) == Cardinality({ g \in 1 .. 15 :
+GuardCount(j) == Cardinality({ g \in 1 .. 16 :
     CASE g = 1 -> GNonOption [] g = 2 -> GLoneDash [] g = 3 -> GUnknownLong(j) [] g = 4 -> GUnknownShort(j)
       [] g = 5 -> GShortFlag(j) [] g = 6 -> GShortAttachedValue(j) [] g = 7 -> GShortNextValue(j) [] g = 8 -> GLongFlag(j)
       [] g = 9 -> GLongBoolWord(j) [] g = 10 -> GLongEqValue(j) [] g = 11 -> GLongNextValue(j) [] g = 12 -> GMissingValue(j)
-      [] g = 13 -> GArgListRest(j) [] g = 14 -> GArgListEq(j) [] g = 15 -> GAbstract(j) })
+      [] g = 13 -> GArgListRest(j) [] g = 14 -> GArgListEq(j) [] g = 15 -> GAbstract(j) [] g = 16 -> GArgListAttached(j) })
 ReadingIsFunction == Scanning => GuardCount(CurOpt) <= 1
 
 Next == ScanStep \/ OpPrePassEnd \/ OpMainPassEnd \/ OpCompactBegin \/ OpCompactStep \/ OpCompactEnd \/ OpExcluded
@@ -379,7 +389,7 @@ Init == /\ tb \in 1 .. Len(Tables)
         /\ argv \in Argvs(tb)
         /\ phase = (IF "PRE" \in st THEN "pre" ELSE "main")
         /\ i = 1 /\ l = 0
-        /\ flags = Flags0
+        /\ flags = Flags0[tb]
         /\ tv = [j \in 1 .. Len(Tables[tb]) |-> TV(IF Tables[tb][j].kind = "int" THEN Int0 ELSE 0, FALSE, <<>>, <<>>)]
         /\ mark = [k \in 1 .. Len(argv) |-> "keep"]
         /\ badLo = 0 /\ badHi = 0 /\ badOpen = FALSE /\ strict = TRUE /\ re = FALSE
@@ -409,7 +419,7 @@ OwnedBits == { Tb[j].bit : j \in { q \in 1 .. NOpt : Tb[q].kind = "bool" } }
 BoolStepOK == \A b \in (flags' \ flags) \cup (flags \ flags') :
                   CurOpt # 0 /\ Tb[CurOpt].kind = "bool" /\ Tb[CurOpt].bit = b /\ InPass(CurOpt)
 BoolTouchesOnlyMask == [][BoolStepOK]_vars
-ForeignBitsKept == flags \ OwnedBits = Flags0 \ OwnedBits
+ForeignBitsKept == flags \ OwnedBits = Flags0[tb] \ OwnedBits
 
 \* OtherPassUntouched: options of the other pass keep their values throughout a pass; pre-parse options are never
 \* assigned when no pre-parse pass is run
@@ -420,10 +430,10 @@ OtherPassStepOK ==
 OtherPassUntouched == [][OtherPassStepOK]_vars
 PrePassOnlyPre == phase = "pre" =>
     \A j \in 1 .. NOpt : ~Tb[j].pp => /\ tv[j] = TV0(j)
-                                     /\ (Tb[j].kind = "bool" => ((Tb[j].bit \in flags) = (Tb[j].bit \in Flags0)))
+                                     /\ (Tb[j].kind = "bool" => ((Tb[j].bit \in flags) = (Tb[j].bit \in Flags0[tb])))
 NoPrePassNoPre == "PRE" \notin st =>
     \A j \in 1 .. NOpt : Tb[j].pp => /\ tv[j] = TV0(j)
-                                    /\ (Tb[j].kind = "bool" => ((Tb[j].bit \in flags) = (Tb[j].bit \in Flags0)))
+                                    /\ (Tb[j].kind = "bool" => ((Tb[j].bit \in flags) = (Tb[j].bit \in Flags0[tb])))
 \* later occurrences override earlier ones: a target only ever holds the initial value or a value spelled on the line
 \* (checked for integers: the value is the decimal reading of some word or attached value)
 IntFromLine == \A j \in 1 .. NOpt : Tb[j].kind = "int" =>
@@ -434,7 +444,7 @@ IntFromLine == \A j \in 1 .. NOpt : Tb[j].kind = "int" =>
 \* or lies behind an argument-list option; words before the cursor that are plain and not preceded by an option word
 \* are kept; the compacted vector lists positions in increasing order
 IsArgsOptWord(w) == \/ IsLongWord(w) /\ ~HasEq(w) /\ FindLong(LongName(w)) # 0 /\ Tb[FindLong(LongName(w))].kind = "args"
-                    \/ IsShortWord(w) /\ FindShort(w[Len(w)]) # 0 /\ Tb[FindShort(w[Len(w)])].kind = "args"
+                    \/ IsShortWord(w) /\ \E p \in 2 .. Len(w) : FindShort(w[p]) # 0 /\ Tb[FindShort(w[p])].kind = "args"
 NonOptionsUntouchedInOrder ==
     /\ \A k \in 1 .. NArgs : (mark[k] # "keep" /\ ~StartsDash(Txt(k))) =>
           \/ k > 1 /\ StartsDash(Txt(k - 1))
